@@ -182,16 +182,16 @@ class NllCase:
         return float(tot), info
 
 
-def case_strategy(models=None, nmax=(80, 30, 200), float_ok=True):
+def case_strategy(models=None, nmax=(80, 30, 200), float_ok=True, spec=None):
     models = models or MODELS
     return st.fixed_dictionaries(
         {
-            "spec": gen.structure(nfinal=3, max_chains=3, min_chains=2),
+            "spec": spec if spec is not None else gen.structure(nfinal=3, max_chains=3, min_chains=2),
             "pv": st.lists(st.floats(0.05, 0.95), min_size=8, max_size=8),
             "model": st.sampled_from(models),
-            "n_data": st.integers(20, nmax[0]),
-            "n_bg": st.sampled_from([0, 0, 7, 25, nmax[1]]),
-            "n_phsp": st.integers(50, nmax[2]),
+            "n_data": st.integers(min(20, nmax[0] - 4), nmax[0]),
+            "n_bg": st.sampled_from([0, 0, 7, min(25, nmax[1]), nmax[1]]),
+            "n_phsp": st.integers(min(50, nmax[2] - 10), nmax[2]),
             "wmode": st.sampled_from(["unit", "pos", "signed"]),
             "phsp_weights": st.booleans(),
             "bg_weight": st.floats(0.1, 0.9),
